@@ -51,6 +51,7 @@ class Region:
         self.steps = 0
         self.max_steps = max_steps
         self.nframe = 0
+        self.zero_regions = set()      # objects whose unset fields read as 0 (e.g. an option block with every option off)
 
     # ---- memory helpers for the rules
     def local(self, f, name):
@@ -135,6 +136,8 @@ class Region:
                     ln = self.mem.get((p.reg, 'len'))
                     if ln is not None and not (0 <= p.off < ln):
                         raise OutOfBounds('%s: read of %s at byte offset %d outside its %d bytes (%s)' % (f.name, p.reg[1], p.off, ln, ins.loc()))
+                    if (p.reg, p.off) not in self.mem and p.reg in self.zero_regions:
+                        self.mem[(p.reg, p.off)] = 0
                     if (p.reg, p.off) not in self.mem:
                         raise Unsupported('%s: read of unset memory %r at %s' % (f.name, p, ins.loc()))
                     vals[ins.id] = self.mem[(p.reg, p.off)]
